@@ -211,8 +211,11 @@ PROPS = {
         "trusted": ["diagrams in which one version value is interned under two spellings (K1) are compared semantically only"], "assumptions": [],
     },
     "C08": {
-        "lean_targets": ["Pep508.Theorems.C05"],
-        "theorems": ["Pep508.C05.false_literal", "Pep508.C05.quote_choice"],
+        "lean_targets": ["Pep508.Theorems.C05", "Pep508.Theorems.C08"],
+        "theorems": ["Pep508.C08.printed_form", "Pep508.C08.roundtrip", "Pep508.C08.roundtrip_marker", "Pep508.C08.marker_cursor",
+                     "Pep508.C08.calls", "Pep508.C08.calls_spans", "Pep508.C08.never_rejected", "Pep508.C08.name_fixed",
+                     "Pep508.C08.no_dot_not_archive", "Pep508.C08.url_semicolon_marker_rejected", "Pep508.C08.archive_name_rejected",
+                     "Pep508.C05.false_literal", "Pep508.C05.quote_choice"],
         "suites": [{"name": "req", "args": ["C08"]}],
         "rule": "accepted requirement derivations (name x extras x none/bare/parenthesised specifiers/@ URL incl. `;`/`#`/`${VAR}` inside x marker) are rendered, re-parsed, compared "
                 "field by field (marker by equivalence only for FALSE / deprecated spellings), re-rendered, and sent through serde_json both ways; every parse outcome is compared "
@@ -292,9 +295,9 @@ MANIFEST_TEXT = {
         "note": _NOTE + "partial at the text level: parse(render(m)) = m is oracle + parser correspondence, not a Lean theorem; spelling is a parameter (K1).",
     },
     "C08": {
-        "technique": "round-trip oracle on accepted derivations + differential requirement-parser model; rendering lemmas (FALSE literal, quote choice)",
-        "text": "Display / serde round trips of every accepted generated requirement, with the marker compared by equivalence only inside the property's carve-out.",
-        "note": _NOTE + "partial: no Lean theorem yet states parse (show r) = r; external printers (pep440_rs, url) are trusted to re-parse to themselves.",
+        "technique": "Lean 4 theorem: the model requirement parser applied to the model Display of every well-formed requirement value returns that value (name, extras, the exact texts handed to the external specifier / URL parsers with their spans, marker as the marker parser reads it) and never rejects it; Display model compared with to_string() on every accepted requirement; round-trip oracle (Display, re-render, serde_json both ways)",
+        "text": "roundtrip / roundtrip_marker / calls / calls_spans / never_rejected over all ReqVal satisfying the explicit predicate ReqVal.WF (what the printers of a parsed requirement guarantee); the two exclusions are proved necessary (url_semicolon_marker_rejected: F20; archive_name_rejected); implementation-level round trips of every accepted generated requirement, marker compared by equivalence only inside the property's carve-out.",
+        "note": _NOTE + "partial: the theorem covers the glue (separators, token boundaries, URL end, blank before `;`); that pep440_rs / url re-parse their own printed texts to equal values, and that the marker text re-parses to the same marker (C05), are hypotheses of the theorem and are decided by the implementation-level oracle; the unnamed form (extension feature) is oracle-only.",
     },
     "C14": {
         "technique": "Lean 4 refinement proof: the id-level interner (append-only arena = unique table, AND memo cache, complemented edges, create_node normalisation) refines the "
